@@ -174,6 +174,12 @@ def main(ctx):
     W = 4
     jobs = {}
 
+    # ---- 0. which of the modelled rule variants does the code follow? ----
+    variant = probe_variants(pc)
+    ctx.notes.append(f'code follows: {variant}')
+    if os.environ.get('C13_DEBUG'):
+        print('  variants', variant)
+
     # ---- 1. TLC: design checks and case generation (run concurrently) ----
     maxlen = 5 if quick else 6
     mapc = lambda rule, emit, ml=maxlen: dict(
@@ -205,7 +211,8 @@ def main(ctx):
         ReqPaths=PS(paths), Targets=PS(targets), InitTrees='<-' + trees)
     jobs['fs as written (escape histories)'] = lambda: run_mc(
         'PathConfineFS', 'fs_full',
-        fs_consts(full[0], full[1], ALLOPS, emit=True),
+        fs_consts(full[0], full[1], ALLOPS, emit=True,
+                  rewrite=variant['rewrite']),
         fsdefs(full[2], full[3], 'TreesSmall' if quick else 'TreesAll'),
         ['TypeOK'], view=True, workers=W, timeout=800)
     jobs['fs as written'] = lambda: run_mc(
@@ -217,6 +224,14 @@ def main(ctx):
         fs_consts(absr[0], absr[1], ALLOPS, rule='strip'),
         fsdefs(absr[2], absr[3], 'TreesAll'),
         ['TypeOK', 'AllTouchedUnderRoot'], view=True, workers=W, timeout=800)
+    jobs['fs repaired rewrite, plain relative targets, no relocation'] = \
+        lambda: run_mc(
+            'PathConfineFS', 'fs_realdir',
+            fs_consts(4, 3, NOMOVE, rule='strip', rewrite='realdir'),
+            fsdefs(rp + ['a//b/.'], ['..', '../..', '.', 'a', '../a'],
+                   'TreesAll'),
+            ['TypeOK', 'AllTouchedUnderRoot'], view=True, workers=W,
+            timeout=800)
     jobs['fs without target rewrite'] = lambda: run_mc(
         'PathConfineFS', 'fs_norw',
         fs_consts(3, 3, NOMOVE, rule='strip', rewrite='none'),
@@ -233,9 +248,10 @@ def main(ctx):
             d = tlc.workdir(f'c13_sim_{bias}_out')
             return run_mc(
                 'PathConfineFS', f'fs_sim_{bias}',
-                fs_consts(8, 4, ALLOPS, bias=bias,
+                fs_consts(8, 4, ALLOPS, bias=bias, rule='strip',
+                          rewrite=variant['rewrite'],
                           randk=3 if bias == 'all' else 16),
-                fsdefs(rp + ['a/../b', '//a/../b'],
+                fsdefs(rp + ['a/../b', 'a//b/.'],
                        rel_t + ['/', '/a', '../a', 'a/b'], 'TreesAll'),
                 [], workers=2, sim_dir=d, spec='SimSpec',
                 simulate=f'file={d}/tr,num={nsim}', depth=9,
@@ -259,8 +275,8 @@ def main(ctx):
                               ', '.join(ent_tla(e) for e in es) + '}')
     nent = 2 if quick else 3
     gd = ('dir', 'none')
-    jobs['get as written (table)'] = lambda: run_mc(
-        'PathConfineDL', 'get_t', dl_consts('get', False, 2, gd),
+    jobs['get (table)'] = lambda: run_mc(
+        'PathConfineDL', 'get_t', dl_consts('get', variant['get_filter'], 2, gd),
         getdefs(get_entries(True)), ['EmitAll'], workers=1)
     jobs['get as written'] = lambda: run_mc(
         'PathConfineDL', 'get_asis', dl_consts('get', False, 2, gd),
@@ -336,6 +352,30 @@ def main(ctx):
 
 
 # --------------------------------------------------------------------------
+def probe_variants(pc):
+    """Three tiny probes of the real code select which modelled variant the
+    generated cases are compared with (the verdicts never depend on it)."""
+    v = {}
+    w = pc.ServerWorld()
+    try:
+        m = pc.real_map_path(w.area.root, [b'//a'])[0].decode()
+        v['map'] = 'strip' if pc.under(w.area.root, m) else 'asis'
+        r = pc.run_sequence(w, {}, [('symlink', b'.', b'a'),
+                                    ('symlink', b'..', b'a/b'),
+                                    ('opendir', b'b', b'')])
+        v['rewrite'] = 'asis' if r['escapes'] else 'realdir'
+    finally:
+        w.close()
+    d = pc.DownloadWorld()
+    try:
+        r = d.run_get([dict(name=b'../../x', type='file', t=b'', sub=[])],
+                      'dir', True)
+        v['get_filter'] = not (r['escapes'] or r['outside'])
+    finally:
+        d.close()
+    return v
+
+
 def table_of(res):
     tab = {}
     for v in printed_blocks(res, 'MAP'):
@@ -386,13 +426,30 @@ def replay_map(ctx, pc, results, quick):
 
         # every operation x every path, through real requests
         table = strip if rule == 'strip' else asis
+        nreq = wire_sweep(ctx, pc, world, table, esc, paths,
+                          3 if quick else 5, 2 if quick else 3, [])
+    finally:
+        world.close()
+    world = pc.ServerWorld(sftp_version=6)      # open56, lsetstat, realpath+stat
+    try:
+        nreq += wire_sweep(ctx, pc, world, table, esc, paths,
+                           2 if quick else 4, 1 if quick else 2,
+                           ['realpath_stat'])
+        ctx.traces_validated(nreq)
+        esc.report(ctx)
+    finally:
+        world.close()
+    return rule
+
+
+def wire_sweep(ctx, pc, world, table, esc, paths, n1, n2, extra_ops):
+    if True:
         ops1 = ['stat', 'lstat', 'open_r', 'open_w', 'open_x', 'open_a',
                 'mkdir', 'rmdir', 'remove', 'readlink', 'realpath', 'opendir',
-                'setstat', 'truncate', 'utime', 'statvfs']
+                'setstat', 'lsetstat', 'truncate', 'utime', 'statvfs'] + \
+            extra_ops
         ops2 = ['rename', 'posix_rename', 'link', 'symlink']
         tree = {('a',): 'dir', ('a', 'b'): 'file', ('b',): 'file'}
-        n1 = 3 if quick else 5
-        n2 = 2 if quick else 3
         sweep = [p for p in paths if p.count('/') < n1]
         pairs = [p for p in paths if p.count('/') < n2]
         nreq = 0
@@ -406,7 +463,7 @@ def replay_map(ctx, pc, results, quick):
             st, _detail, events = world.request(op, p.encode(), q.encode())
             nreq += 1
             bad = world.judge(events)
-            if op == 'realpath':
+            if op in ('realpath', 'realpath_stat'):
                 pred = False
             elif op == 'symlink':
                 pred = outside(q)   # the target is stored, not touched
@@ -430,19 +487,15 @@ def replay_map(ctx, pc, results, quick):
                 for q in pairs:
                     one(op, p, q)
         out = pc.outside_changes(world.tree(), ('T', 'R'))
-        ctx.traces_validated(nreq)
-        esc.report(ctx)
         if out:
             ctx.violation({'module': 'PathConfine', 'kind': 'outside-changed',
                            'part': 'wire sweep'},
                           f'entries outside the served root changed: {out}',
                           replay={'kind': 'note'})
-        ctx.sample({'part': 'wire sweep', 'requests': nreq,
-                    'ops': ops1 + ops2, 'paths': len(sweep),
+        ctx.sample({'part': 'wire sweep', 'sftp_version': world.sftp_version,
+                    'requests': nreq, 'ops': ops1 + ops2, 'paths': len(sweep),
                     'path_pairs': len(pairs) ** 2})
-    finally:
-        world.close()
-    return rule
+        return nreq
 
 
 def path_form(p):
@@ -512,9 +565,6 @@ def replay_fs(ctx, pc, results, rule, quick):
                     lbl = st['lbl']
                     reqs.append(conv_req(lbl))
                     pred.append((lbl[3], lbl[4], pc.model_tree(st['fs'])))
-                if rule != 'asis' and any(
-                        pc_two_slashes(x) for r in reqs for x in r[1:]):
-                    continue        # the simulated model follows "asis"
                 r = pc.run_sequence(world, tree_from_model(init), reqs, pred)
                 nseq += 1
                 key = tuple(s['req'] for s in r['steps'])
@@ -553,19 +603,20 @@ def replay_fs(ctx, pc, results, rule, quick):
             r = pc.run_sequence(world, {}, reqs)
             nseq += 1
             ctx.count(('regression', name))
-            note_escapes(pc, world, found, cache, {}, reqs, r)
+            note_escapes(pc, world, found, cache, {}, reqs, r, prio=0)
         ctx.traces_validated(nseq)
         # report: per kind, the shortest few minimal setups
         per_kind = {}
         for (kind, setup), ex in found.items():
             per_kind.setdefault(kind, []).append((setup, ex))
         for kind, lst in sorted(per_kind.items()):
-            lst.sort(key=lambda x: (len(x[0]), x[0]))
+            lst.sort(key=lambda x: (x[1][2], len(x[0]), x[0]))
             ctx.notes.append(f'{kind}: {len(lst)} distinct minimal setups: ' +
                              ' | '.join('; '.join(x[0]) for x in lst[:12]))
             if kind == 'map-path':
                 continue            # reported by the mapping part
-            for setup, (use, ex) in lst[:3]:
+            nprio = sum(1 for x in lst if x[1][2] == 0)
+            for setup, (use, ex, _prio) in lst[:max(3, nprio)]:
                 ctx.violation(
                     {'module': 'PathConfine', 'kind': kind,
                      'setup': list(setup)},
@@ -618,7 +669,7 @@ def canon_names(reqs):
     return [(op, conv(p), conv(q)) for op, p, q in reqs]
 
 
-def note_escapes(pc, world, found, cache, init, reqs, r):
+def note_escapes(pc, world, found, cache, init, reqs, r, prio=1):
     if not r['escapes']:
         return
     idx, kinds, evs = r['escapes'][0]
@@ -626,7 +677,7 @@ def note_escapes(pc, world, found, cache, init, reqs, r):
     for kind in kinds:
         if kind == 'map-path':
             found.setdefault((kind, ('path of form //x',)),
-                             (pc.req_str(seq[-1]), evs[0][2]))
+                             (pc.req_str(seq[-1]), evs[0][2], prio))
             continue
         ck = (kind, json.dumps(sorted(init)), tuple(seq[:-1]))
         if ck not in cache:
@@ -638,7 +689,9 @@ def note_escapes(pc, world, found, cache, init, reqs, r):
         small = cache[ck]
         setup = tuple(([f'init {sorted("/".join(k) for k in init)}']
                        if init else []) + [pc.req_str(x) for x in small[:-1]])
-        found.setdefault((kind, setup), (pc.req_str(small[-1]), evs[0][2]))
+        old = found.get((kind, setup))
+        if old is None or old[2] > prio:
+            found[(kind, setup)] = (pc.req_str(small[-1]), evs[0][2], prio)
 
 
 # --------------------------------------------------------------------------
@@ -693,8 +746,8 @@ def replay_dl(ctx, pc, results, quick):
     cache = {}
     n = 0
     try:
-        for name, mode, cap in (('scp sink (exhaustive + table)', 'scp', 700),
-                                ('get as written (table)', 'get', 700)):
+        for name, mode, cap in (('scp sink (exhaustive + table)', 'scp', 450),
+                                ('get (table)', 'get', 450)):
             cases = [c[0] for c in printed_blocks(results[name], 'CASE')]
             ctx.require(len(cases) > 50, f'{name}: no case table')
             cases.sort(key=lambda c: json.dumps(c, sort_keys=True))
